@@ -250,7 +250,7 @@ def record_costs(results, harnesses, tier="quick"):
             old = costs.get(r["id"])
             if tier == "quick" and old and old.get("tier") == "thorough" and old.get("status") == "CONFIRMED" and r["status"] == "UNKNOWN":
                 # keep the thorough verdict, remember that it does not fit the quick budget
-                old["cpu"] = max(old.get("cpu", 0), 91)
+                old["cpu"] = max(old.get("cpu", 0), 46)
                 continue
             costs[r["id"]] = {"status": r["status"], "cpu": r.get("cpu_s", 0), "timeout": tmo.get(r["id"], 0), "tier": tier}
     with open(COSTS, "w") as f:
@@ -290,7 +290,7 @@ def run_check(prop, tier, only=None, keep=False, extra=None):
             # a harness that did not decide within the quick budget on the reference tree is left to the thorough tier
             if c and c.get("status") == "UNKNOWN" and c.get("timeout", 0) >= h.timeout:
                 deferred.append(h.hid)
-            elif c and c.get("status") == "CONFIRMED" and c.get("cpu", 0) > 90:
+            elif c and c.get("status") == "CONFIRMED" and c.get("cpu", 0) > 45:
                 deferred.append(h.hid)  # decided, but too expensive for the every-change tier
             else:
                 kept.append(h)
